@@ -1,44 +1,104 @@
 (* C06 -- Deserialising then serialising any parseable stream reproduces its bytes.
-   Model: Model/SerDes.v (framework; tie C: tools/harness/C21.py) + Model/SerDesVC2.v (vc2.py
-   descriptions as program terms; tie C: tools/harness/C06.py).
-   STATUS: partial.  Proved: per primitive, writing back what was read reproduces exactly the consumed
-   bits (incl. bits past the end of a bounded block and hence bounded-block / byte-align padding, which
-   are bitarray primitives), for every non-negative length; the serialiser step on the value just
-   deserialised; the refutation for negative lengths (the vc2.py padding/auxiliary_data defect).
-   NOT proved: the composition over whole programs ([C06_des_ser]: needs the invariant that the final
-   description extends every intermediate one, path-wise) -- that part rests on the differential run
-   of tools/harness/C06.py against the real parse_stream. *)
+   Model: Model/SerDes.v (the SerDes framework over a bit-list I/O model; tie C: tools/harness/C21.py)
+   + Model/SerDesVC2.v (vc2.py descriptions as program terms; tie C: tools/harness/C06.py).
+
+   Program class covered ([conv_ok p]): every description program of the free monad [prog] that
+     - does not call is_target_complete (the serialiser's "is there more to write" question; the
+       stream-level while loop of vc2.py parse_stream uses it together with io.is_end_of_stream and is
+       therefore outside the class -- one iteration, i.e. everything below parse_sequence, is inside),
+     - passes no negative length to nbits / uint_lit / bitarray / bytes ([op_len_ok]; a negative length
+       reads nothing but cannot be written: C06_refuted_padding),
+     - whose computed values do not contain the model-only reference marker ([op_ok]).
+   All theorems are for ALL such programs, ALL bit strings, ALL default tables. *)
 From Coq Require Import ZArith List Bool.
-From VC2 Require Import Model.SerDes Model.SerDesVC2 Proofs.SerDesBits Proofs.SerDesConverse.
+From VC2 Require Import Model.SerDes Model.SerDesVC2 Proofs.SerDesBits Proofs.SerDesWf Proofs.SerDesSim
+  Proofs.SerDesProofs Proofs.SerDesConverse Proofs.SerDesDesSer.
 Import ListNotations.
 Open Scope Z_scope.
 
-(* every value primitive (bool, nbits, uint_lit, bitarray, bytes, uint, sint; byte_align and
-   bounded_block_end are bitarray reads of the computed length), any reader state (inside or outside
-   a bounded block, before or past its end), any non-negative length: the value read, written by the
-   writer standing where the reader stood, appends exactly the consumed bits X and leaves the writer
-   where the reader now stands *)
-Theorem C06_primitive_des_ser_partial : forall k r v r',
+(* If deserialising bs with p succeeds (result a, final state sdF, X = the bits consumed) and
+   verify_complete passes, then serialising the resulting description (type and fields of the root
+   dictionary) with p succeeds with the same result, writes EXACTLY X -- bit for bit, including the bits
+   read past the end of bounded blocks, bounded-block and byte-align padding -- verify_complete passes
+   and the serialiser ends with the same description. *)
+Theorem C06_des_ser : forall D A (p : prog A) bs a sdF,
+  conv_ok p ->
+  run_des p bs = Ok (a, sdF) -> verify_complete sdF = Ok tt ->
+  exists ssF X,
+    bs = X ++ bits (sio sdF) /\
+    run_ser D p (c_ty sdF) (c_f sdF) = Ok (a, ssF) /\
+    bits (sio ssF) = X /\
+    verify_complete ssF = Ok tt /\
+    root ssF = root sdF.
+Proof. exact des_ser. Qed.
+
+(* Re-deserialising that output, followed by ANY bits R (the zero bits of flush(), more data, ...),
+   yields the same result and an EQUAL description. *)
+Theorem C06_redes : forall D A (p : prog A) bs a sdF,
+  conv_ok p ->
+  run_des p bs = Ok (a, sdF) -> verify_complete sdF = Ok tt ->
+  exists ssF, run_ser D p (c_ty sdF) (c_f sdF) = Ok (a, ssF) /\
+    forall R, exists sd2, run_des p (bits (sio ssF) ++ R) = Ok (a, sd2) /\
+                          root sd2 = root sdF /\ bits (sio sd2) = R /\ verify_complete sd2 = Ok tt.
+Proof. exact redes. Qed.
+
+(* a deserialiser run does not depend on the bits it does not consume *)
+Theorem C06_des_suffix_independent : forall A (p : prog A), lens_ok p ->
+  forall s a s', run des_step p s = Ok (a, s') ->
+  exists X, bits (sio s) = X ++ bits (sio s') /\
+    forall R, run des_step p (rebits s (X ++ R)) = Ok (a, rebits s' R).
+Proof. exact des_run_suffix. Qed.
+
+(* per primitive: any reader state (inside or outside a bounded block, before or past its end), any
+   non-negative length: the value read, written by the writer standing where the reader stood, appends
+   exactly the consumed bits X and leaves the writer where the reader now stands *)
+Theorem C06_primitive_des_ser : forall k r v r',
   kind_ok k -> read_val k r = Ok (v, r') ->
   exists X, bits r = X ++ bits r' /\
     forall out, write_val k v (wr_of r out) = Ok (wr_of r' (out ++ X)).
 Proof. exact read_val_write_val. Qed.
 
-(* hence the serialiser primitive that finds the deserialised value at its target *)
-Theorem C06_step_des_ser_partial : forall D k t ss ss1 r v r' out,
-  kind_ok k -> read_val k r = Ok (v, r') ->
-  ser_get D t ss = Ok (v, ss1) -> sio ss1 = wr_of r out ->
-  exists X, bits r = X ++ bits r' /\ ser_prim D k t ss = Ok (v, set_io ss1 (wr_of r' (out ++ X))).
-Proof. exact ser_prim_reproduces. Qed.
+(* the invariant behind C06_des_ser: whatever an intermediate deserialiser state can still become,
+   the state before could become -- used targets are sealed, lists only grow *)
+Theorem C06_final_extends_every_intermediate : forall A (p : prog A), prog_ok p ->
+  forall s a s' G, dinv s -> wf s -> run des_step p s = Ok (a, s') -> Fut s' G -> Fut s G.
+Proof. exact des_run_Fut. Qed.
 
-(* the property is FALSE for descriptions that pass a negative length: vc2.py padding/auxiliary_data
-   with next_parse_offset < 13 (un-clamped program, as on the unrepaired tree) *)
+(* the repaired vc2.py padding / auxiliary-data unit is in the class, for every next_parse_offset *)
+Theorem C06_padding_unit_repaired : forall D bs sdF,
+  run_des (unit_prog true) bs = Ok (tt, sdF) -> verify_complete sdF = Ok tt ->
+  exists ssF X,
+    bs = X ++ bits (sio sdF) /\
+    run_ser D (unit_prog true) (c_ty sdF) (c_f sdF) = Ok (tt, ssF) /\
+    bits (sio ssF) = X /\ verify_complete ssF = Ok tt /\ root ssF = root sdF.
+Proof. exact (fun D bs sdF => des_ser D unit (unit_prog true) bs tt sdF unit_prog_clamped_ok). Qed.
+
+(* The vc2.py descriptions written as program terms (Model/SerDesVC2.v; compared with the real functions
+   by tools/harness/C06.py) are in the covered class, for every parameter value the real code can
+   pass: sequence_header with its "not in spec" index substitutions, fragment_header, hq_slice
+   (slice_prefix_bytes >= 0, any slice_size_scaler, any coefficient counts), ld_slice with the clamped
+   slice_y_length -- so C06_des_ser and C06_redes apply to them. *)
+Theorem C06_vc2_descriptions_covered :
+  conv_ok sequence_header_prog /\ conv_ok fragment_header_prog /\
+  (forall prefix scaler ny nc1 nc2 sx sy, 0 <= prefix -> conv_ok (hq_slice_prog prefix scaler ny nc1 nc2 sx sy)) /\
+  (forall sb length_bits ny nc sx sy, 0 <= length_bits -> conv_ok (ld_slice_prog sb length_bits ny nc sx sy)).
+Proof.
+  exact (conj sequence_header_prog_ok (conj fragment_header_prog_ok
+          (conj hq_slice_prog_ok ld_slice_prog_ok))).
+Qed.
+
+(* ... and the statement is FALSE for the un-repaired unit (negative length when next_parse_offset < 13):
+   the defect of vc2.py padding/auxiliary_data fixed by fixes/C06-padding-negative-length.diff *)
 Theorem C06_refuted_padding :
   exists s, run_des (unit_prog false) (bytes_bits bad_unit) = Ok (tt, s) /\
             verify_complete s = Ok tt /\ bits (sio s) = [] /\
             run_ser [] (unit_prog false) 0 (root_fields s) = Err EOutOfRange.
 Proof. exact unclamped_padding_refuted. Qed.
 
-(* non-vacuity / the repaired description round-trips the same unit *)
-Example C06_example_clamped : clamped_check = true.
-Proof. exact clamped_check_true. Qed.
+(* non-vacuity: the hypotheses of C06_des_ser hold for the repaired unit on a concrete stream, and for
+   the C21 example program (typed subcontext with a list, bounded block, byte_align, computed value,
+   data-dependent branch) *)
+Example C06_example_clamped : conv_ok (unit_prog true) /\ clamped_check = true.
+Proof. exact (conj unit_prog_clamped_ok clamped_check_true). Qed.
+Example C06_example_program : conv_ok ex_prog.
+Proof. exact ex_prog_conv_ok. Qed.
